@@ -309,17 +309,20 @@ def leaves():
     for k in (1, 2, 5):
         L[f"n_bytes({k})"] = nbytes_leaf(k)
 
-    def fix_leaf(cap, lt_name, lt_bytes):
+    def fix_leaf(cap, lt_name, lt_bytes, max_len=None):
         def make(member=None, small=False):
             lt = getattr(C, lt_name)
-            lib = CT.FixedSizeString(cap, lt)
+            lib = CT.FixedSizeString(cap, lt) if max_len is None else CT.FixedSizeString(cap, lt, max_len)
             lib = lib(member) if member is not None else lib
             bad = [None, 5, b"ab", "Ā"]
-            return TNode(f"FixedSizeString({cap},{lt_name})", lib, ("fixstr", cap, lt_bytes),
-                         values=lambda tier: str_values(lt_bytes, 1, tier, small, cap=cap), invalid=lambda tier: bad)
+            return TNode(f"FixedSizeString({cap},{lt_name}" + (f",{max_len})" if max_len is not None else ")"), lib, ("fixstr", cap, lt_bytes),
+                         values=lambda tier: str_values(lt_bytes, 1, tier, small, cap=cap if max_len is None else max_len), invalid=lambda tier: bad)
         return make
     for cap, lt, lb in [(1, "UDINT", 4), (20, "UDINT", 4), (82, "UDINT", 4), (480, "UDINT", 4), (12, "UINT", 2), (7, "USINT", 1)]:
         L[f"FixedSizeString({cap},{lt})"] = fix_leaf(cap, lt, lb)
+    # the data area of an uploaded string type includes alignment padding: capacity (characters) < size (bytes on the wire)
+    for cap, lt, lb, ml in [(84, "UDINT", 4, 82), (12, "UDINT", 4, 10), (4, "UINT", 2, 1)]:
+        L[f"FixedSizeString({cap},{lt},{ml})"] = fix_leaf(cap, lt, lb, ml)
 
     def ip_leaf(member=None, small=False):
         lib = CT.IPAddress(member) if member is not None else CT.IPAddress
